@@ -53,7 +53,8 @@ def main():
         p = os.path.join(ROOT, "checks", pid + ".json")
         c = json.load(open(p))
         r = dict(reg)
-        r.update(per.get(pid, {}))
+        pp = per.get(pid, {})
+        r.update({'theorems': pp} if isinstance(pp, list) else ({} if isinstance(pp, str) else pp))
         for m in r.get("lean_modules", []):
             if m not in c["lean_modules"]:
                 c["lean_modules"].append(m)
